@@ -124,6 +124,17 @@ func runMscn(t []string) string {
 	defer cancel()
 
 	// hook: trace + seeded delays + cancellation at a point
+	// DELAYSEED: a number seeds random delays / yields at every hook point; "d<point>:<us>" delays
+	// every visit of one point by <us> microseconds (a directed schedule)
+	delayPoint, delayUs := "", 0
+	if strings.HasPrefix(seedS, "d") {
+		kv := strings.SplitN(seedS[1:], ":", 2)
+		delayPoint = kv[0]
+		if len(kv) > 1 {
+			delayUs, _ = strconv.Atoi(kv[1])
+		}
+		seedS = "0"
+	}
 	seed, _ := strconv.ParseInt(seedS, 10, 64)
 	var hmu sync.Mutex
 	reached := map[string]int{}
@@ -151,6 +162,9 @@ func runMscn(t []string) string {
 		hmu.Unlock()
 		if name == cancelPoint && hit == cancelN {
 			cancel()
+		}
+		if name == delayPoint {
+			d = time.Duration(delayUs) * time.Microsecond
 		}
 		if d > 0 {
 			time.Sleep(d)
@@ -287,7 +301,7 @@ func runMscn(t []string) string {
 	timedOut := false
 	select {
 	case <-done:
-	case <-time.After(20 * time.Second):
+	case <-time.After(callDeadline()):
 		timedOut = true
 	}
 	elapsed := time.Since(start)
@@ -335,4 +349,15 @@ func runMscn(t []string) string {
 		cancelled = "1"
 	}
 	return fmt.Sprintf("%s %d %d %s %s %s", res, elapsed.Milliseconds(), leaked, cancelled, strings.Join(pts, ","), chunks)
+}
+
+// callDeadline: how long a massive call may take before it is reported as not returning. The
+// calls of the scenarios take milliseconds; VERIF_MSCN_DEADLINE_MS overrides the default of 6 s.
+func callDeadline() time.Duration {
+	if v := os.Getenv("VERIF_MSCN_DEADLINE_MS"); v != "" {
+		if n, err := strconv.Atoi(v); err == nil && n > 0 {
+			return time.Duration(n) * time.Millisecond
+		}
+	}
+	return 6 * time.Second
 }
